@@ -27,9 +27,9 @@ type cty struct {
 }
 
 type cfield struct {
-	name string // label text without quotes / marks (with the _ of hidden fields)
-	form string // reg opt req quoted hidden def
-	ty   *cty
+	name   string // label text without quotes / marks (with the _ of hidden fields)
+	form   string // reg opt req quoted hidden def
+	ty     *cty
 	viaDef bool // rendered as a reference to a definition of that type
 }
 
